@@ -272,7 +272,14 @@ fn gen_coarse(prop: &str, base_seed: u64, batch: &str, run: u64, rng: &mut Rng) 
 pub fn check_isolated(scn: &Scenario) -> Checked {
     use std::io::Write;
     use std::process::{Command, Stdio};
-    let mut child = match Command::new(std::env::current_exe().expect("exe"))
+    // (if the binary was replaced while we run, the kernel reports the old path with a suffix)
+    let mut exe = std::env::current_exe().expect("exe");
+    if !exe.exists() {
+        if let Some(s) = exe.to_str().and_then(|s| s.strip_suffix(" (deleted)")) {
+            exe = std::path::PathBuf::from(s);
+        }
+    }
+    let mut child = match Command::new(exe)
         .arg("isolated")
         .stdin(Stdio::piped())
         .stdout(Stdio::piped())
